@@ -130,7 +130,7 @@ func c17Specs(quick bool) []*wSpec {
 var c17All = wSpecMap(c17Specs(true), c17Specs(false))
 
 func init() {
-	register(&Prop{ID: "C17", Level: "model_checking", QuickBudget: 110 * time.Second, ThoroughBudget: 30 * time.Minute,
+	register(&Prop{ID: "C17", Level: "model_checking", QuickBudget: 300 * time.Second, ThoroughBudget: 30 * time.Minute,
 		Run: func(c *rt.Ctx) {
 			c.Cov["rule"] = "E3 on the wallet world (real wallets on bbolt, real mints on SQLite, in-process transport, shared Lightning model): every history up to the depth bound over {mint 16, send x in {1,3,5} with / without fees, receive (same mint, other wallet, untrusted mint with and without swap-to-trusted), melt of an external 4-sat invoice x {Succeeded, Failed, Pending}, backend settles / fails the pending payment, check melt quote, reclaim, remove spent, add mint, mint-swap A->B x {payment succeeds, fails, stays in flight}, keyset rotation with fee 0 / 100, wallet reload}; in every state: GetBalance == sum of stored spendable proofs == sum of GetBalanceByMints, every spendable proof UNSPENT at its mint, PendingBalance == stored pending proofs which were all handed out or submitted to a melt, every plain-sent unspent proof still pending in its sender, no secret spendable twice, and for every mint outstanding ecash (issued - redeemed) == value of not-spent secrets held by wallets (spendable + pending) and tokens in flight; every swap / melt request a mint accepted gives up exactly the mint's input fee ceil(sum ppk/1000) beyond its outputs (amount + Lightning fee + change for melts), audited from the recorded HTTP exchanges; a further search starts from a wallet holding proofs of two keysets with the same fee (rotation mid-history) and spends amounts that need inputs from both"
 			runWSpecs(c, c17Specs(c.Quick()))
